@@ -12,16 +12,19 @@ import (
 // are replayable too.
 type seqHooks struct{ env *Env }
 
-func (h seqHooks) IsTask() bool             { return true }
-func (h seqHooks) Lock(m *sync.Mutex)       { m.Lock() }
-func (h seqHooks) Unlock(m *sync.Mutex)     { m.Unlock() }
-func (h seqHooks) RWLock(m *sync.RWMutex)   { m.Lock() }
-func (h seqHooks) RWUnlock(m *sync.RWMutex) { m.Unlock() }
-func (h seqHooks) RLock(m *sync.RWMutex)    { m.RLock() }
-func (h seqHooks) RUnlock(m *sync.RWMutex)  { m.RUnlock() }
-func (h seqHooks) Go(f func())              { go f() }
-func (h seqHooks) Woke()                    {}
-func (h seqHooks) SelectPref(n int) int     { return 0 }
+func (h seqHooks) IsTask() bool                   { return true }
+func (h seqHooks) Lock(m *sync.Mutex)             { m.Lock() }
+func (h seqHooks) TryLock(m *sync.Mutex) bool     { return m.TryLock() }
+func (h seqHooks) RWTryLock(m *sync.RWMutex) bool { return m.TryLock() }
+func (h seqHooks) TryRLock(m *sync.RWMutex) bool  { return m.TryRLock() }
+func (h seqHooks) Unlock(m *sync.Mutex)           { m.Unlock() }
+func (h seqHooks) RWLock(m *sync.RWMutex)         { m.Lock() }
+func (h seqHooks) RWUnlock(m *sync.RWMutex)       { m.Unlock() }
+func (h seqHooks) RLock(m *sync.RWMutex)          { m.RLock() }
+func (h seqHooks) RUnlock(m *sync.RWMutex)        { m.RUnlock() }
+func (h seqHooks) Go(f func())                    { go f() }
+func (h seqHooks) Woke()                          {}
+func (h seqHooks) SelectPref(n int) int           { return 0 }
 func (h seqHooks) RandRead(b []byte) (int, error) {
 	copy(b, h.env.C.Bytes("rand", len(b)))
 	return len(b), nil
